@@ -220,3 +220,17 @@ package bill
 //@   ensures [none] err == nil && pl.Debit == nil && pl.Credit == nil ==> pl.Total == plZero(cur)
 //@   ensures [rate] err == nil && !same && (pl.Debit != nil || pl.Credit != nil) ==> (exists i int :: firstRate(rates, pl.Currency, cur, i))
 //@   ensures [norate] err != nil ==> !same && (forall i int :: 0 <= i && i < len(rates) ==> !(rates[i].From == pl.Currency && rates[i].To == cur))
+//
+// ---- C12 / C01: the driver. Checked for invoices (the billable interface is resolved to
+// *Invoice), as ghost assertions only: everything else in the driver is outside the contract.
+//
+// the date handed to the tax calculator is the value date when the invoice has one, else its
+// issue date (selection), and it is the date selected (use); lines are rounded for presentation
+// only after the tax calculator has been built and run on the unrounded line totals (order)
+//@ func calculate(doc) (err)
+//@   dynamic doc *Invoice
+//@   requires unboxed(doc, *Invoice) != nil
+//@   modifies *
+//@   at-call Invoice).getTotals assert [taxdate.selected] date != nil && (unboxed(doc, *Invoice).ValueDate != nil ==> date == unboxed(doc, *Invoice).ValueDate) && (unboxed(doc, *Invoice).ValueDate == nil ==> *date == unboxed(doc, *Invoice).IssueDate)
+//@   at-call TotalCalculator).Calculate assert [taxdate.used] $arg0.Date == *date && $arg0.Rounding == rr && $arg0.Includes == pit
+//@   at-call roundLines assert [order] tc != nil
